@@ -78,6 +78,13 @@ def index {α : Type} (xs : List α) (i : Int) : Res α :=
 /-- `s[i]` of a string (a byte in Go; a character here — equal on ASCII) -/
 def byteAt (s : String) (i : Int) : Res Char := index s.toList i
 
+/-- `make([]T, n)`: n zero values; panics for n < 0 (the capacity is not modelled) -/
+def makeL {α : Type} (zero : α) (n : Int) : Res (List α) :=
+  if 0 ≤ n then .ok (List.replicate n.toNat zero) else .panic
+
+/-- `copy(dst, src)` on slices: the first min(len(dst), len(src)) elements of dst are overwritten -/
+def copyL {α : Type} (dst src : List α) : List α := src.take dst.length ++ dst.drop src.length
+
 /-- `*p` -/
 def deref {α : Type} (p : Option α) : Res α :=
   match p with
